@@ -796,6 +796,177 @@ func ruleWRdTx(c *Ctx) {
 		}
 		c.Check(ok, "W-rd", "Txs.ReadFrom", tfn.Pos(), "reads a count and then exactly that many transactions, each into its own new object which is appended", "Txs.ReadFrom does not read <count> transactions after the count: "+detail)
 	}
+	// the lists the decoded elements are appended to start empty
+	for _, spec := range [][2]string{{"*Tx", "ReadFrom"}, {"*Txs", "ReadFrom"}} {
+		if lfn := c.P.Func("", spec[0], spec[1]); lfn != nil {
+			listsStartEmpty(c, lfn, strings.TrimPrefix(spec[0], "*")+"."+spec[1])
+		}
+	}
+}
+
+// listsStartEmpty: every list a reader appends decoded elements to (list = append(list, element), the list
+// living at an address) is emptied before the first append - by a store of nil / make(T, 0) to it or of a zero
+// value to the object holding it that dominates the append - and nothing else is stored to it: what the
+// reader hands back is what it decoded, no element more.
+func listsStartEmpty(c *Ctx, fn *ssa.Function, label string) {
+	env := newTermEnv()
+	type app struct {
+		st  *ssa.Store
+		loc string
+		at  ssa.Instruction // where it happens in fn: the store itself, or the call of the helper that holds it
+		fa  *ssa.FieldAddr
+	}
+	var apps []app
+	appendsOf := func(f *ssa.Function, e *TermEnv, at ssa.Instruction) {
+		for _, b := range f.Blocks {
+			for _, ins := range b.Instrs {
+				st, ok := ins.(*ssa.Store)
+				if !ok {
+					continue
+				}
+				call, ok := st.Val.(*ssa.Call)
+				if !ok {
+					continue
+				}
+				if bi, ok := call.Call.Value.(*ssa.Builtin); !ok || bi.Name() != "append" || len(call.Call.Args) != 2 {
+					continue
+				}
+				ld, ok := call.Call.Args[0].(*ssa.UnOp)
+				if !ok || ld.Op != token.MUL || canonTerm(e.Term(ld.X)) != canonTerm(e.Term(st.Addr)) {
+					continue
+				}
+				a := app{st: st, loc: canonTerm(e.Term(st.Addr)), at: at}
+				if a.at == nil {
+					a.at = st
+				}
+				a.fa, _ = st.Addr.(*ssa.FieldAddr)
+				apps = append(apps, a)
+			}
+		}
+	}
+	appendsOf(fn, env, nil)
+	// helpers a later change split the reader into (not in the baseline list), called on the reader's own
+	// receiver: their appends to the receiver's lists are the reader's
+	if inlineHelper != nil && len(fn.Params) > 0 {
+		for _, b := range fn.Blocks {
+			for _, ins := range b.Instrs {
+				call, ok := ins.(*ssa.Call)
+				if !ok {
+					continue
+				}
+				sc := call.Call.StaticCallee()
+				if sc == nil || !inlineHelper(sc) || len(sc.Blocks) == 0 || len(call.Call.Args) == 0 || call.Call.Args[0] != ssa.Value(fn.Params[0]) || len(sc.Params) == 0 {
+					continue
+				}
+				appendsOf(sc, newTermEnv(), call) // the helper's p0 is the reader's p0
+			}
+		}
+	}
+	n := 0
+	seen := map[string]bool{}
+	for _, a := range apps {
+		if seen[a.loc] {
+			continue
+		}
+		seen[a.loc] = true
+		n++
+		// the object holding the list: the address with its last field step removed ("&p0.Inputs" -> "p0")
+		holder := ""
+		if a.fa != nil {
+			holder = canonTerm(newTermEnv().Term(a.fa.X))
+		}
+		reset, problem := false, ""
+		for _, b := range fn.Blocks {
+			for _, ins := range b.Instrs {
+				st, ok := ins.(*ssa.Store)
+				if !ok || st == a.st {
+					continue
+				}
+				at := canonTerm(env.Term(st.Addr))
+				isApp := false
+				for _, o := range apps {
+					if o.st == st {
+						isApp = true
+					}
+				}
+				if isApp {
+					continue
+				}
+				switch {
+				case at == a.loc:
+					empty := false
+					val := st.Val
+					if ct, ok := val.(*ssa.ChangeType); ok {
+						val = ct.X
+					}
+					switch v := val.(type) {
+					case *ssa.Const:
+						empty = v.Value == nil
+					case *ssa.MakeSlice:
+						if k, ok := constInt(v.Len); ok && k.Sign() == 0 {
+							empty = true
+						}
+					case *ssa.Slice:
+						// make(T, 0) with constant sizes: a slice [:0] of a new array
+						if v.High != nil {
+							if k, ok := constInt(v.High); ok && k.Sign() == 0 && v.Low == nil {
+								empty = true
+							}
+						} else if al, ok := v.X.(*ssa.Alloc); ok && v.Low == nil {
+							if at, ok := derefType(al.Type()).Underlying().(*types.Array); ok && at.Len() == 0 {
+								empty = true
+							}
+						}
+					}
+					if !empty {
+						problem = "it is given a value that is not an empty list at " + c.P.Pos(st.Pos())
+					} else if st.Block().Dominates(a.at.Block()) {
+						reset = true
+					}
+				case holder != "" && at == holder:
+					if isZeroValue(st.Val) && st.Block().Dominates(a.at.Block()) {
+						reset = true
+					}
+				}
+			}
+		}
+		key := label + "/starts-empty/" + strings.TrimPrefix(a.loc, "&")
+		switch {
+		case problem != "":
+			c.Fail("W-rd", key, a.st.Pos(), "the list the decoded elements are appended to does not start empty: "+problem)
+		case !reset:
+			c.Fail("W-rd", key, a.st.Pos(), "the list the decoded elements are appended to is not emptied before the first append (no dominating store of an empty list or of a zero object)")
+		default:
+			c.OK("W-rd", key, a.st.Pos(), "emptied before the first append, written by nothing but the appends")
+		}
+	}
+	c.MinInstances("W-rd/starts-empty/"+label, n, 1)
+}
+
+// isZeroValue: the zero value of a struct type as go/ssa spells it (a load of a fresh, never written local, or
+// a constant zero).
+func isZeroValue(v ssa.Value) bool {
+	switch x := v.(type) {
+	case *ssa.Const:
+		return x.Value == nil
+	case *ssa.UnOp:
+		if x.Op != token.MUL {
+			return false
+		}
+		al, ok := x.X.(*ssa.Alloc)
+		if !ok || al.Referrers() == nil {
+			return false
+		}
+		for _, r := range *al.Referrers() {
+			switch r.(type) {
+			case *ssa.UnOp, *ssa.DebugRef:
+			default:
+				return false
+			}
+		}
+		return true
+	}
+	return false
 }
 
 func dedupSorted(ss []string) []string {
